@@ -52,7 +52,10 @@ def run(ctx):
     fam["invalid_schemas"] = sum(1 for e in entries if not e[3])
     fam["fields_observed"] = sum(i.count("F(") for _, i, _ in rows)
     fam["fields_yielded_by_iterators"] = sum(i.count("P(") for _, i, _ in rows)
-    fam["meta_fields"] = sum(i.count("h5f5f") for _, i, _ in rows)
+    import re
+    meta = re.compile(r"F\((?:N|S\(h[0-9a-f]+\)),h5f5f")
+    fam["meta_field_selections"] = sum(len(meta.findall(i)) for _, i, _ in rows)
+    fam["unknown_definitions(no schema)"] = sum(i.count("Tn(h554e4b4e4f574e)") for _, i, _ in rows)
     for c, i, m in rows[:: max(1, len(rows) // 4)]:
         ctx.sample({"family": "xbuild", "case": U.describe_case(c), "impl": i[:600], "model": m[:600]}, limit=4)
     ctx.cov["rule"] = (
